@@ -311,11 +311,18 @@ def encSet (s : EncState) : CfgOp → Option EncState
     if b ∧ ¬ (s.freq * s.refrac < 1000) then none
     else some { s with comp := b }
 
-/-- A setter that raises leaves the encoder as it was. -/
+/-- What a setter that raises leaves behind: every public attribute as it was.  One hidden flag
+moves: `RefractoryStepMixin.refrac.fset` clears `__derive_refrac` BEFORE it validates the value, so
+a rejected negative `refrac` (which passes the compatibility test) unpins the refractory period
+from `dt`. -/
+def encFail (s : EncState) : CfgOp → EncState
+  | .setRefrac (some r) => if s.comp ∧ ¬ (r * s.freq < 1000) then s else { s with derive := false }
+  | _ => s
+
 def encStep (s : EncState) (op : CfgOp) : EncState × Bool :=
   match encSet s op with
   | some s' => (s', true)
-  | none => (s, false)
+  | none => (encFail s op, false)
 
 def encRun (s : EncState) : List CfgOp → EncState
   | [] => s
